@@ -275,10 +275,15 @@ void *psDynBufDetach(psDynBuf_t *db, size_t *len_p)
     if (db->err)
     {
         psDynBufUninit(db);
+        *len_p = 0;
         return NULL;
     }
 
     new = psBufDetach(db->pool, &db->buf, len_p);
+    if (new == NULL)
+    {
+        *len_p = 0;
+    }
     db->pool = NULL;
     return new;
 }
@@ -288,6 +293,7 @@ void *psDynBufDetachPsSize(psDynBuf_t *db, psSize_t *len_p)
     void *new;
     size_t len;
 
+    *len_p = 0;
     if (db->err)
     {
         psDynBufUninit(db);
@@ -790,6 +796,13 @@ int32_t psDynBufAppendTlsVector(psDynBuf_t *db,
     if (len < minLen || len > maxLen)
     {
         return PS_ARG_FAIL;
+    }
+    if (data == NULL && len > 0)
+    {
+        /* The source is the result of an earlier failed allocation
+           (e.g. psDynBufDetach of a failed buffer): fail this buffer too. */
+        db->err++;
+        return PS_MEM_FAIL;
     }
 
     /* Number of length octets depends only on the maximum vector size. */
